@@ -135,4 +135,73 @@ theorem nv_window : Window nvDs' nvFwd' 1700 1000 1300 60 200 60 ∧ Window nvDs
   exact ⟨⟨hc, by decide, by decide, by decide, by decide, by decide, by decide, by decide, by decide, by decide, by decide⟩,
     ⟨hc, by decide, by decide, by decide, by decide, by decide, by decide, by decide, by decide, by decide, by decide⟩⟩
 
+/-! a second example with TWO lines, so that the alternatives search really iterates (two routes, four calculations) -/
+
+def nvDs2 : Dataset :=
+  { nStops := 3, nServices := 1,
+    foot := [⟨0, 0, 0, 0⟩, ⟨1, 1, 0, 0⟩, ⟨2, 2, 0, 0⟩, ⟨1, 2, 60, 50⟩],
+    lines := [⟨0, 0⟩, ⟨0, 0⟩], paths := [⟨0, [0, 1], [10]⟩, ⟨1, [0, 2, 1], [10, 10]⟩],
+    trips := [⟨5, 0, 0, [1000, 1300], [1000, 1300], [true, true], [true, true]⟩,
+              ⟨6, 1, 0, [1100, 1400, 1700], [1100, 1400, 1700], [true, true, true], [true, true, true]⟩],
+    scenarios := [{ services := [0], onlyLines := [], exceptLines := [], onlyAgencies := [], exceptAgencies := [], onlyModes := [], exceptModes := [] }],
+    access := [⟨0, 100, 80⟩], egress := [⟨1, 200, 150⟩] }
+
+theorem nv2_mono (l : List Int) (hl : l = [1000, 1300] ∨ l = [1100, 1400, 1700]) (i j : Nat) (hij : i ≤ j) (hj : j < l.length) :
+    l.getD i 0 ≤ l.getD j 0 := by
+  rcases hl with rfl | rfl
+  · simp at hj
+    have : i = 0 ∨ i = 1 := by omega
+    have : j = 0 ∨ j = 1 := by omega
+    rcases ‹i = 0 ∨ i = 1› with rfl | rfl <;> rcases ‹j = 0 ∨ j = 1› with rfl | rfl <;> simp_all
+  · simp at hj
+    have : i = 0 ∨ i = 1 ∨ i = 2 := by omega
+    have : j = 0 ∨ j = 1 ∨ j = 2 := by omega
+    rcases ‹i = 0 ∨ i = 1 ∨ i = 2› with rfl | rfl | rfl <;> rcases ‹j = 0 ∨ j = 1 ∨ j = 2› with rfl | rfl | rfl <;> simp_all
+
+theorem nv2_trips (tr : TripRec) (h : tr ∈ nvDs2.trips) :
+    (tr.arr = [1000, 1300] ∧ tr.dep = [1000, 1300]) ∨ (tr.arr = [1100, 1400, 1700] ∧ tr.dep = [1100, 1400, 1700]) := by
+  simp only [nvDs2, List.mem_cons, List.mem_nil_iff, or_false] at h
+  rcases h with rfl | rfl
+  · exact Or.inl ⟨rfl, rfl⟩
+  · exact Or.inr ⟨rfl, rfl⟩
+
+theorem nv2_wf : WFData nvDs2 ∧ TripsAligned nvDs2 := by
+  refine ⟨⟨⟨by decide, ?_⟩, ?_, ?_, by decide, ?_⟩, ?_⟩
+  · intro tr htr i j hij hj
+    rcases nv2_trips tr htr with ⟨a, _⟩ | ⟨a, _⟩ <;> exact nv2_mono tr.arr (by simp [a]) i j hij hj
+  · intro tr htr i j hij hj
+    rcases nv2_trips tr htr with ⟨a, d⟩ | ⟨a, d⟩
+    · exact nv2_mono tr.dep (by simp [d]) i j hij (by rw [d]; rw [a] at hj; exact hj)
+    · exact nv2_mono tr.dep (by simp [d]) i j hij (by rw [d]; rw [a] at hj; exact hj)
+  · intro tr htr i hi
+    rcases nv2_trips tr htr with ⟨a, d⟩ | ⟨a, d⟩
+    · rw [a] at hi ⊢; rw [d]; simp at hi
+      have : i = 0 := by omega
+      subst this; simp
+    · rw [a] at hi ⊢; rw [d]; simp at hi
+      have : i = 0 ∨ i = 1 := by omega
+      rcases this with rfl | rfl <;> simp
+  · have h1 : ∀ c ∈ nvDs2.conns, ∃ d, (⟨c.depStop, c.depStop, 0, d⟩ : Foot) ∈ nvDs2.foot := by
+      have : nvDs2.conns.all (fun c => nvDs2.foot.any fun f => f.a == c.depStop && f.b == c.depStop && f.time == 0) = true := by decide
+      intro c hc
+      have h2 := List.all_eq_true.mp this c hc
+      obtain ⟨f, hf, hf2⟩ := List.any_eq_true.mp h2
+      simp only [Bool.and_eq_true, beq_iff_eq] at hf2
+      refine ⟨f.dist, ?_⟩
+      have : (⟨c.depStop, c.depStop, 0, f.dist⟩ : Foot) = f := by cases f; simp_all
+      rw [this]; exact hf
+    exact h1
+  · unfold TripsAligned; decide
+
+/-- non-vacuity on a dataset where the alternatives search iterates (two lines: `trmodel` returns two alternatives after four
+    calculations, and the shifted lists are shifted copies - evaluated by the compiled driver in the C12 metamorphic run, not by the
+    kernel: sixteen calculations are too much for `decide`): the hypotheses of `C12_window_alternatives` hold, both time types, offsets
+    across an hour mark in both directions -/
+theorem nv_window_alternatives2 :
+    WFData nvDs2 ∧ TripsAligned nvDs2 ∧ Window nvDs2 nvFwd' 1700 1000 1700 60 200 60 ∧ Window nvDs2 nvRev' (-600) 1000 1700 60 200 60 := by
+  have hc : ∀ c ∈ nvDs2.conns, (1000 : Int) ≤ c.dep ∧ c.dep ≤ 1700 ∧ 1000 ≤ c.arr ∧ c.arr ≤ 1700 ∧ (c.minWait = -1 ∨ (0 ≤ c.minWait ∧ c.minWait ≤ 60)) := by decide
+  exact ⟨nv2_wf.1, nv2_wf.2,
+    ⟨hc, by decide, by decide, by decide, by decide, by decide, by decide, by decide, by decide, by decide, by decide⟩,
+    ⟨hc, by decide, by decide, by decide, by decide, by decide, by decide, by decide, by decide, by decide, by decide⟩⟩
+
 end Tr
